@@ -311,7 +311,7 @@ Verdict(e) ==
      THEN LET ob2 == [exit |-> e.exit, listing |-> ToFn(e.info, LAMBDA x : x.h, LAMBDA x : x.ns)]
           IN base @@
              [kind |-> "info",
-              P_C19_Info |-> P_C19_Info(pre, dk, o, ob2),
+              P_C19_Info |-> P_C19_Info(pre, dk, o, ob2) /\ Cardinality({e.info[k].h : k \in DOMAIN e.info}) = Len(e.info),   \* each history once
               P_C19_Dates |-> \A k \in DOMAIN e.info :
                                  LET hh == RawHist(e.pre.hist, e.info[k].h)
                                  IN hh # <<>> /\ e.info[k].dates = [i \in DOMAIN hh[1].gens |-> hh[1].gens[i].cdate]]
